@@ -108,6 +108,8 @@ type runePred struct {
 	assume map[string]bool
 	fail   string
 	depth  int
+	// consts: expressions (by their text, e.g. "rr.lo") that stand for a constant rune while one element of a table is looked at
+	consts map[string]rune
 }
 
 func (p *runePred) isVar(e ast.Expr) bool {
@@ -125,6 +127,11 @@ func (p *runePred) isVar(e ast.Expr) bool {
 }
 
 func (p *runePred) constRune(e ast.Expr) (rune, bool) {
+	if p.consts != nil {
+		if v, ok := p.consts[nodeStr(p.c.Fset, ast.Unparen(e))]; ok {
+			return v, true
+		}
+	}
 	if tv := p.pkg.TypesInfo.Types[e]; tv.Value != nil {
 		if v, ok := constant.Int64Val(constant.ToInt(tv.Value)); ok {
 			return rune(v), true
@@ -226,6 +233,14 @@ func (p *runePred) eval(e ast.Expr) runeSet {
 						}
 						return rsNorm(s)
 					}
+				}
+			}
+			// membership in a table of ranges: inRanges(r, table) with
+			//   func inRanges(r rune, ranges []T) bool { return slices.ContainsFunc(ranges, func(x T) bool { return <cond over r, x.f> }) }
+			// and table a package level literal of constant structs that is never assigned
+			if q := p.c.Pkgs[cal.Pkg().Path()]; q != nil && len(t.Args) == 2 && p.isVar(t.Args[0]) && p.depth < 4 {
+				if set, ok := p.tableMembership(q, cal, t.Args[1]); ok {
+					return set
 				}
 			}
 			// a predicate of the repository: func(r rune) bool { return <expr> }, also with boolean flags
@@ -360,6 +375,106 @@ func (p *runePred) evalBody(body *ast.BlockStmt) (runeSet, bool) {
 		res = rsUnion(res, rsIntersect(remaining, p.eval(final)))
 	} else {
 		return nil, false
+	}
+	return res, true
+}
+
+// tableMembership evaluates helper(r, table) for the shape described at its call.
+func (p *runePred) tableMembership(q *packages.Package, cal *types.Func, tableArg ast.Expr) (runeSet, bool) {
+	qi := q.TypesInfo
+	fd := findFuncDecl(q, cal)
+	if fd == nil || fd.Body == nil || fd.Recv != nil || len(fd.Body.List) != 1 || fd.Type.Params == nil {
+		return nil, false
+	}
+	var params []*ast.Ident
+	for _, fl := range fd.Type.Params.List {
+		params = append(params, fl.Names...)
+	}
+	if len(params) != 2 {
+		return nil, false
+	}
+	ret, ok := fd.Body.List[0].(*ast.ReturnStmt)
+	if !ok || len(ret.Results) != 1 {
+		return nil, false
+	}
+	cf, ok := ast.Unparen(ret.Results[0]).(*ast.CallExpr)
+	if !ok || len(cf.Args) != 2 {
+		return nil, false
+	}
+	if c2 := Callee(qi, cf); c2 == nil || c2.Pkg() == nil || c2.Pkg().Path() != "slices" || c2.Name() != "ContainsFunc" {
+		return nil, false
+	}
+	if id, ok := ast.Unparen(cf.Args[0]).(*ast.Ident); !ok || qi.ObjectOf(id) != qi.Defs[params[1]] {
+		return nil, false
+	}
+	lit, ok := ast.Unparen(cf.Args[1]).(*ast.FuncLit)
+	if !ok || len(lit.Body.List) != 1 || lit.Type.Params.NumFields() != 1 || len(lit.Type.Params.List[0].Names) != 1 {
+		return nil, false
+	}
+	lret, ok := lit.Body.List[0].(*ast.ReturnStmt)
+	if !ok || len(lret.Results) != 1 {
+		return nil, false
+	}
+	elemName := lit.Type.Params.List[0].Names[0].Name
+	// the table
+	tid, ok := ast.Unparen(tableArg).(*ast.Ident)
+	if !ok {
+		return nil, false
+	}
+	tv, ok := p.pkg.TypesInfo.ObjectOf(tid).(*types.Var)
+	if !ok || tv.Pkg() == nil || tv.Parent() != tv.Pkg().Scope() {
+		return nil, false
+	}
+	tl, has := singleDefExpr[tv]
+	if !has {
+		return nil, false
+	}
+	cl, ok := ast.Unparen(tl).(*ast.CompositeLit)
+	if !ok {
+		return nil, false
+	}
+	sl, ok := p.pkg.TypesInfo.TypeOf(cl).Underlying().(*types.Slice)
+	if !ok {
+		return nil, false
+	}
+	st, ok := sl.Elem().Underlying().(*types.Struct)
+	if !ok {
+		return nil, false
+	}
+	var res runeSet
+	for _, el := range cl.Elts {
+		ecl, ok := ast.Unparen(el).(*ast.CompositeLit)
+		if !ok {
+			return nil, false
+		}
+		consts := map[string]rune{}
+		for i, fe := range ecl.Elts {
+			name := ""
+			val := fe
+			if kv, ok := fe.(*ast.KeyValueExpr); ok {
+				if kid, ok := kv.Key.(*ast.Ident); ok {
+					name = kid.Name
+				}
+				val = kv.Value
+			} else if i < st.NumFields() {
+				name = st.Field(i).Name()
+			}
+			vtv := p.pkg.TypesInfo.Types[val]
+			if name == "" || vtv.Value == nil {
+				return nil, false
+			}
+			v, ok := constant.Int64Val(constant.ToInt(vtv.Value))
+			if !ok {
+				return nil, false
+			}
+			consts[elemName+"."+name] = rune(v)
+		}
+		sub := &runePred{c: p.c, pkg: q, v: qi.Defs[params[0]], assume: map[string]bool{}, depth: p.depth + 1, consts: consts}
+		set := sub.eval(lret.Results[0])
+		if sub.fail != "" {
+			return nil, false
+		}
+		res = rsUnion(res, set)
 	}
 	return res, true
 }
